@@ -26,8 +26,10 @@ REQUIRED = [
     ("liquid/builtin/tags/liquid_tag.py", "LiquidTag.parse"),
 ]
 
-WS = " \t\n\r"
-TEXTS = ["", " ", "\n", " \t\n ", "a", " a ", "\n b\n", "a  ", "  a", "{ ", " %} ", "}} x", "{ { ", " - ", "\r\n c \r\n"]
+# "removes all whitespace": every character str.isspace() knows, not only the ASCII ones
+WS = "".join(chr(c) for c in range(0x3001) if chr(c).isspace())
+TEXTS = ["", " ", "\n", " \t\n ", "a", " a ", "\n b\n", "a  ", "  a", "{ ", " %} ", "}} x", "{ { ", " - ", "\r\n c \r\n",
+         "\xa0", "a\xa0 ", " \u2003b", "\x0b\x0c", "c \u2028\u2029 ", "\x1c d \x85", "\u3000e\u3000"]
 TEXTS_SMALL = ["", " a ", " \n ", "\tb"]
 BODY_TEXTS = ["", " ", "x", " x ", "\n y \n", "{{ z }}", " {% if %} "]
 
